@@ -334,6 +334,73 @@ func (c *Ctx) checkUnshift(sc interface {
 		sc.Undecided("Unshift", "-", "unresolved anchor: SchemaContentJSight.Unshift/ObjectProperty/InheritedFrom")
 		return
 	}
+	// the membership test itself looks at every child and at nothing but its key
+	if ofd := c.P.Decl(objProp); ofd != nil {
+		opk := c.P.PkgOfDecl(ofd)
+		oinfo := opk.TypesInfo
+		var kObj types.Object
+		if len(ofd.Type.Params.List) == 1 && len(ofd.Type.Params.List[0].Names) == 1 {
+			kObj = oinfo.ObjectOf(ofd.Type.Params.List[0].Names[0])
+		}
+		bad := ""
+		loops := 0
+		ast.Inspect(ofd.Body, func(n ast.Node) bool {
+			var body *ast.BlockStmt
+			switch l := n.(type) {
+			case *ast.RangeStmt:
+				body = l.Body
+			case *ast.ForStmt:
+				body = l.Body
+			}
+			if body == nil {
+				return true
+			}
+			loops++
+			ast.Inspect(body, func(y ast.Node) bool {
+				ifs, ok := y.(*ast.IfStmt)
+				if !ok {
+					return true
+				}
+				var atoms func(e ast.Expr)
+				atoms = func(e ast.Expr) {
+					e = ast.Unparen(e)
+					if be, ok := e.(*ast.BinaryExpr); ok && (be.Op == token.LAND || be.Op == token.LOR) {
+						atoms(be.X)
+						atoms(be.Y)
+						return
+					}
+					if u, ok := e.(*ast.UnaryExpr); ok && u.Op == token.NOT {
+						atoms(u.X)
+						return
+					}
+					mentionsKey, isNilTest := false, false
+					ast.Inspect(e, func(z ast.Node) bool {
+						if id, ok := z.(*ast.Ident); ok && kObj != nil && oinfo.ObjectOf(id) == kObj {
+							mentionsKey = true
+						}
+						return true
+					})
+					if be, ok := e.(*ast.BinaryExpr); ok && (isNilIdentExpr(oinfo, be.X) || isNilIdentExpr(oinfo, be.Y)) {
+						isNilTest = true
+					}
+					if !mentionsKey && !isNilTest {
+						bad = types.ExprString(e) + " at " + c.P.Pos(e.Pos())
+					}
+				}
+				atoms(ifs.Cond)
+				return true
+			})
+			return true
+		})
+		switch {
+		case loops == 0:
+			sc.Undecided("ObjectProperty:complete", c.P.Pos(ofd.Pos()), "the membership test has no loop over the children")
+		case bad == "":
+			sc.Holds("ObjectProperty:complete", c.P.Pos(ofd.Pos()), "every condition in the search loop compares the key (or is a nil test)")
+		default:
+			sc.Violation("ObjectProperty:complete", c.P.Pos(ofd.Pos()), "the membership test that guards the insertion of inherited properties skips children by something other than their key ("+bad+"): a property it does not see is inserted a second time when its type is expanded again")
+		}
+	}
 	for i, cs := range c.callSitesOf(unshift) {
 		info := cs.Pk.TypesInfo
 		cf := c.CFG(cs.Pk, cs.Body)
